@@ -118,6 +118,8 @@ class Subroutine:
     @property
     def cstructs(self):
         assert self.app_id is not None
+        if not 0 <= self.app_id < 2**16:
+            raise ValueError(f"app ID {self.app_id} cannot be encoded")
 
         metadata = encoding.Metadata(
             netqasm_version=self.netqasm_version,
